@@ -538,6 +538,7 @@ func runBytes(b []byte, r *vf.Rec) {
 type viewCase struct {
 	root            []int
 	loc, dims, step []int // nil dims => the root itself
+	nanOnly         bool  // plant a single NaN in the interior instead of NaN first / -Inf middle / +Inf last
 }
 
 func viewCases() []viewCase {
@@ -548,7 +549,7 @@ func viewCases() []viewCase {
 		var rec func(d int, loc, dims, step []int)
 		rec = func(d int, loc, dims, step []int) {
 			if d == nd {
-				out = append(out, viewCase{root, append([]int{}, loc...), append([]int{}, dims...), append([]int{}, step...)})
+				out = append(out, viewCase{root, append([]int{}, loc...), append([]int{}, dims...), append([]int{}, step...), false})
 				return
 			}
 			for _, s := range []int{1, 2} {
@@ -564,6 +565,17 @@ func viewCases() []viewCase {
 		}
 		rec(0, nil, nil, nil)
 	}
+	// the same views with a single NaN somewhere inside and nothing else non-finite
+	for _, vc := range append([]viewCase{}, out...) {
+		vc.nanOnly = true
+		out = append(out, vc)
+	}
+	// long innermost runs (64 values and more)
+	for _, nanOnly := range []bool{false, true} {
+		out = append(out, viewCase{root: []int{70}, nanOnly: nanOnly}, viewCase{root: []int{130}, nanOnly: nanOnly}, viewCase{root: []int{2, 70}, nanOnly: nanOnly},
+			viewCase{[]int{140}, []int{1}, []int{68}, []int{2}, nanOnly}, viewCase{[]int{2, 140}, []int{0, 3}, []int{2, 65}, []int{1, 2}, nanOnly},
+			viewCase{[]int{3, 70}, []int{1, 2}, []int{2, 64}, []int{1, 1}, nanOnly})
+	}
 	return out
 }
 
@@ -574,9 +586,15 @@ func runView(vc viewCase, r *vf.Rec) {
 		vals[i] = float64(10 + i)
 	}
 	// plant non-finite values
-	vals[0] = math.NaN()
-	vals[n-1] = math.Inf(1)
-	vals[n/2] = math.Inf(-1)
+	if vc.nanOnly {
+		for k := 1; k < n; k += 7 { // every view of two or more elements in a row contains at most a few of them, never the first element of the root
+			vals[k] = math.NaN()
+		}
+	} else {
+		vals[0] = math.NaN()
+		vals[n-1] = math.Inf(1)
+		vals[n/2] = math.Inf(-1)
+	}
 	root := data.ArrayFromSliceFloat64(vals, vc.root)
 	v := root
 	shape := vc.root
@@ -657,7 +675,10 @@ func build(tier string) *enum {
 		}
 		for _, ps := range paramShapes(desc) {
 			for _, is := range inputShapes(desc) {
-				for _, T := range []int{1, 3} {
+				for _, T := range []int{1, 3, 4000} {
+					if T == 4000 && !(is == "all" && (ps == "all" || ps == "none")) {
+						continue // one long request per model and parameter shape (the request text is far above 64 KiB)
+					}
 					if tier == "quick" && T == 1 && strings.Contains(is, ":") && !strings.HasSuffix(is, ":0") {
 						continue
 					}
@@ -770,8 +791,8 @@ func pre(tier string, r *vf.Rec) {
 func Spec() *vf.Check {
 	return &vf.Check{
 		ID: "C17", Level: "exploration", BlockSize: 64, Sub: sub, Pre: pre,
-		Rule: "(i) for each of the 39 tabulated models with scalar parameters: parameters in {none, all, each one alone, all + an unknown name, reversed order} x inputs in {all, each one missing, all missing, each one longer, each one shorter, an unknown extra (same length last; longer first; longer last), reversed order, the largest finite / smallest positive values in every series} x T in {1,3} x splitOutputs: the answer is compared with a direct one-cell run (defaults / zeros, log lines), error cases must be answered with exactly one JSON document that describes the problem; " +
-			"(ii) every byte string of length <= 3 over {{}}[]\":,1-ena\\ and space, and every single-byte deletion / substitution / truncation of three valid requests: no panic, exactly one JSON document, a description when nothing ran; (iii) JsonSafeArray over every depth-1 view (steps 1,2) of float64 roots [4],[2,3],[2,2,3] with NaN/+Inf/-Inf planted x every shiftDim. distinct_nontrivial = cases answered as required.",
+		Rule: "(i) for each of the 39 tabulated models with scalar parameters: parameters in {none, all, each one alone, all + an unknown name, reversed order} x inputs in {all, each one missing, all missing, each one longer, each one shorter, an unknown extra (same length last; longer first; longer last), reversed order, the largest finite / smallest positive values in every series} x T in {1,3} (and 4000 for the complete requests) x splitOutputs: the answer is compared with a direct one-cell run (defaults / zeros, log lines), error cases must be answered with exactly one JSON document that describes the problem; " +
+			"(ii) every byte string of length <= 3 over {{}}[]\":,1-ena\\ and space, and every single-byte deletion / substitution / truncation of three valid requests: no panic, exactly one JSON document, a description when nothing ran; (iii) JsonSafeArray over every depth-1 view (steps 1,2) of float64 roots [4],[2,3],[2,2,3] and six views with innermost runs of 64-130 values, with NaN/+Inf/-Inf planted (first/middle/last) and with interior NaNs only, x every shiftDim. distinct_nontrivial = cases answered as required.",
 		Assumptions: []string{"requests whose parameters make the DIRECT run itself crash inside the model kernel (e.g. GR4J with all parameters defaulted to 0) are outside the statement and skipped; which ones is determined by running the direct run in a fresh process (counter parameter_shapes_whose_direct_run_crashes)",
 			"models with table-valued parameters (Storage, RatingCurvePartition) cannot be configured through the request format and are not enumerated in (i)"},
 		Build: func(tier string) vf.Enumeration { return build(tier) },
